@@ -37,7 +37,11 @@ class LG:
                         n = ch.int(1, 3); definit = ch.int(0, 9) < 6; pos = ch.int(0, n - 1)
                         seq = []
                         for i in range(n):
-                            seq.append('static %s%s %s = %d;' % (pre, ty, name, val + t) if (definit and i == pos) else 'static %s%s %s;' % (pre, ty, name))
+                            # after the first declaration 'extern' keeps the internal linkage (6.2.2p4)
+                            sc_ = 'extern' if (i > 0 and ch.int(0, 2) == 0) else 'static'
+                            if sc_ == 'extern':
+                                feat.add('extern-after-static')
+                            seq.append('%s %s%s %s = %d;' % (sc_, pre, ty, name, val + t) if (definit and i == pos) else '%s %s%s %s;' % (sc_, pre, ty, name))
                         if n > 1:
                             feat.add('repeated-declaration')
                         if tls:
@@ -151,7 +155,44 @@ class LG:
             prn += ''.join(' printf("%s@%d=%%d\\n",%s(2));' % (c, t, c) for c in called)
             if fp:
                 prn += ' printf("fp@%d=%%d\\n", fp%d(2));' % (t, t)
-            lines += tus[t] + protos + defs
+            unev = [f for f in fns if f in self.sinline and f not in called and f != fp]
+            if unev and ch.int(0, 2) == 0:
+                # naming a function in an operand that is not evaluated is not a use (6.9p3): such a static inline function is not emitted
+                f_ = ch.choice(unev)
+                form = ch.int(0, 2)
+                if form == 0:
+                    prn += ' printf("sz@%d=%%d\\n", (int)sizeof(%s(1)));' % (t, f_)
+                elif form == 1:
+                    prn += ' { __typeof__(%s(1)) tv = 3; printf("sz@%d=%%d\\n", (int)sizeof tv + tv); }' % (f_, t)
+                else:
+                    prn += ' printf("sz@%d=%%d\\n", _Generic(1, int: 4, default: %s(1)));' % (t, f_)
+                feat.add('function-named-in-unevaluated-operand')
+            # one declaration may hold object and function declarators in any order ('int o1, f0(int d);')
+            objs = list(tus[t])
+            for pi, pr in enumerate(list(protos)):
+                if pr.startswith('int f') and ch.int(0, 3) == 0:
+                    cands = [i for i, l in enumerate(objs) if re.match(r'^(extern )?int o\d+;$', l)]
+                    if cands:
+                        i = ch.choice(cands)
+                        base = objs[i][:-1]                      # 'int o1' / 'extern int o1'
+                        fdecl = pr[len('int '):-1]               # 'f0(int d)'
+                        if ch.bool():
+                            objs[i] = '%s, %s;' % (base, fdecl)
+                        else:
+                            pfx, oname = base.rsplit(' ', 1)
+                            objs[i] = '%s %s, %s;' % (pfx, fdecl, oname)
+                        protos[pi] = ''
+                        feat.add('mixed-declarators')
+            blk = ''
+            extfns = [n for n in fns if fdefs[n] == 'ext']
+            if extfns and ch.int(0, 3) == 0:
+                # and the same at block scope
+                fn_ = ch.choice(extfns)
+                blk = ' { int loc%d = %d, %s(int d), loc2 = 1; printf("blk@%d=%%d\\n", loc%d + loc2 + %s(1)); }' % (t, ch.int(1, 9), fn_, t, t, fn_) if ch.bool() else \
+                      ' { int %s(int d), loc%d = %d; printf("blk@%d=%%d\\n", loc%d + %s(1)); }' % (fn_, t, ch.int(1, 9), t, t, fn_)
+                feat.add('mixed-declarators-in-block')
+            prn += blk
+            lines += objs + [p_ for p_ in protos if p_] + defs
             lines.append('void run%d(void) {%s }' % (t, prn))
             if t == 0:
                 lines.append(''.join('void run%d(void);' % i for i in range(1, ntu)))
